@@ -143,7 +143,7 @@ def oracle_env(env, chosen_ids, hidden, n, init_ids, klass_ok=True, tol=1e-7):
     fh = [frac(float(x)) for x in hidden]
     singles = [fh[1 << i] for i in range(n)]
     surplus = fh[2 ** n - 1] - sum(singles)
-    scale = max([1.0] + [abs(float(x)) for x in hidden])
+    scale = max([abs(float(x)) for x in hidden]) or 1.0      # relative to the game's own magnitude (tiny games included)
     if abs(float(surplus)) > 1e-9 * scale:
         for i in range(2 ** n):
             exp = (fh[i] - sum(singles[j] for j in range(n) if (i >> j) & 1)) / surplus
